@@ -11,6 +11,8 @@
 //	path.valid  id  text   0|1                                pathutils.IsPathValid
 //	path.chg    id  text   del(0|1)  parsed                   values.PathValuesToGnmiChange (southbound request path)
 //	path.cu     id  text   result                             a stored path read back by the real Get PROTO (createUpdate)
+//	path.det    id  gpath  texts                               the distinct texts of repeated conversions of one compound-key path
+//	path.unexpected id domain input what                       an observation could not be completed (panic / unforeseen answer)
 //	path.e2e    id  kind prefix paths dels code resp stored get sb   real gNMI Set, its SetResponse, the stored texts, Get PROTO, southbound request
 //
 // gpath encoding: elements joined by ';', "." = no elements; element = name{|key=value} with
@@ -94,6 +96,15 @@ func parsed(p *gnmi.Path, err error) string {
 		return "err:" + errKind(err)
 	}
 	return "ok:" + encElems(p.Elem)
+}
+
+// unexpected (deferred by every observation) turns a panic inside an observation - the code under test panicking, or
+// an answer of a shape the observation code did not foresee (nil path, missing field) - into an observation line, so
+// that no behaviour of /repo takes the harness down; the driver reports it with the input
+func unexpected(id, domain, input string) {
+	if r := recover(); r != nil {
+		fmt.Fprintf(out, "path.unexpected\t%s\t%s\t%s\t%s\n", id, domain, input, env.Hx(fmt.Sprint(r)))
+	}
 }
 
 // guarded runs f and reports a panic as the outcome "panic"
@@ -281,11 +292,68 @@ func allStrings(alpha []string, maxLen int) []string {
 // ------------------------------------------------------------ observations --
 
 func obsStr(id string, elems []*gnmi.PathElem, element []string) {
+	defer unexpected(id, "path.str", encElems(elems))
 	p := &gnmi.Path{Elem: elems, Element: element}
 	fmt.Fprintf(out, "path.str\t%s\t%s\t%s\t%s\n", id, encElems(elems), env.HxList(element), env.Hx(utils.StrPath(p)))
 }
 
+// compound reports whether some element has two or more keys
+func compound(elems []*gnmi.PathElem) bool {
+	for _, e := range elems {
+		if e != nil && len(e.Key) >= 2 {
+			return true
+		}
+	}
+	return false
+}
+
+// the text of one gNMI path must be the same at every conversion: convert a compound-key path several times
+// (fresh map copies too, so that neither insertion order nor map identity matters) and report the distinct texts
+func obsDet(id string, elems []*gnmi.PathElem) {
+	defer unexpected(id, "path.det", encElems(elems))
+	if !compound(elems) {
+		return
+	}
+	distinct := []string{}
+	add := func(t string) {
+		for _, d := range distinct {
+			if d == t {
+				return
+			}
+		}
+		distinct = append(distinct, t)
+	}
+	for round := 0; round < 8; round++ {
+		cp := make([]*gnmi.PathElem, len(elems))
+		for i, e := range elems {
+			ks := make([]string, 0, len(e.Key))
+			for k := range e.Key {
+				ks = append(ks, k)
+			}
+			sort.Strings(ks)
+			if round%2 == 1 { // insert in descending order
+				for a, b := 0, len(ks)-1; a < b; a, b = a+1, b-1 {
+					ks[a], ks[b] = ks[b], ks[a]
+				}
+			}
+			ne := &gnmi.PathElem{Name: e.Name}
+			if e.Key != nil {
+				ne.Key = map[string]string{}
+			}
+			for _, k := range ks {
+				ne.Key[k] = e.Key[k]
+			}
+			cp[i] = ne
+		}
+		add(utils.StrPath(&gnmi.Path{Elem: cp}))
+		add(utils.StrPath(&gnmi.Path{Elem: elems}))
+		add(utils.StrPathElem(elems))
+	}
+	fmt.Fprintf(out, "path.det\t%s\t%s\t%s\n", id, encElems(elems), env.HxList(distinct))
+}
+
 func obsRT(id string, elems []*gnmi.PathElem) {
+	defer unexpected(id, "path.rt", encElems(elems))
 	text := utils.StrPath(&gnmi.Path{Elem: elems})
 	res := guarded(func() string { return parsed(utils.ParseGNMIElements(utils.SplitPath(text))) })
 	// the parent of the text, and the text of the path without its last element (both by the implementation)
@@ -298,12 +366,14 @@ func obsRT(id string, elems []*gnmi.PathElem) {
 }
 
 func obsParse(id string, text string) {
+	defer unexpected(id, "path.parse", env.Hx(text))
 	toks := utils.SplitPath(text)
 	res := guarded(func() string { return parsed(utils.ParseGNMIElements(toks)) })
 	fmt.Fprintf(out, "path.parse\t%s\t%s\t%s\t%s\n", id, env.Hx(text), env.HxList(toks), res)
 }
 
 func obsParent(id string, text string) {
+	defer unexpected(id, "path.parent", env.Hx(text))
 	fmt.Fprintf(out, "path.parent\t%s\t%s\t%s\n", id, env.Hx(text), env.Hx(pathutils.GetParentPath(text)))
 }
 
@@ -315,10 +385,12 @@ func b01(ok bool) string {
 }
 
 func obsIdx(id string, text string) {
+	defer unexpected(id, "path.idx", env.Hx(text))
 	fmt.Fprintf(out, "path.idx\t%s\t%s\t%s\n", id, env.Hx(text), b01(pathutils.CheckPathIndexIsValid(text) == nil))
 }
 
 func obsValid(id string, text string) {
+	defer unexpected(id, "path.valid", env.Hx(text))
 	fmt.Fprintf(out, "path.valid\t%s\t%s\t%s\n", id, env.Hx(text), b01(pathutils.IsPathValid(text) == nil))
 }
 
@@ -327,6 +399,7 @@ func strVal(s string) configapi.TypedValue {
 }
 
 func obsChg(id string, text string, del bool) {
+	defer unexpected(id, "path.chg", env.Hx(text))
 	res := guarded(func() string {
 		req, err := values.PathValuesToGnmiChange([]*configapi.PathValue{{Path: text, Value: strVal("v"), Deleted: del}}, "t")
 		if err != nil {
@@ -355,6 +428,7 @@ var cuCount int
 
 // a stored path text read back through the real Get handler with PROTO encoding
 func obsCU(e *env.Env, id string, text string) {
+	defer unexpected(id, "path.cu", env.Hx(text))
 	cuCount++
 	target := fmt.Sprintf("cu%d", cuCount)
 	e.Topo.AddTarget(target, modelName, modelVersion, true, false)
@@ -364,7 +438,8 @@ func obsCU(e *env.Env, id string, text string) {
 		Values:   map[string]*configapi.PathValue{text: {Path: text, Value: strVal("v"), Index: 1}},
 	}
 	if err := e.Cfgs.Create(context.Background(), cfg); err != nil {
-		panic(err)
+		fmt.Fprintf(out, "path.cu\t%s\t%s\tunexpected:store-create:%s\n", id, env.Hx(text), status.Code(err).String())
+		return
 	}
 	res := guarded(func() string {
 		resp, err := e.Gnmi.Get(context.Background(), &gnmi.GetRequest{Path: []*gnmi.Path{{Target: target}}, Encoding: gnmi.Encoding_PROTO})
@@ -408,6 +483,12 @@ var schema = []schemaLeaf{
 	{[]string{"cont", "list", "sub"}, [][]string{nil, {"name"}, {"idx"}}, "val"},
 	{[]string{"cont", "list", "sub"}, [][]string{nil, {"name"}, {"idx"}}, "idx"},
 	{[]string{"oc-if:interfaces", "interface"}, [][]string{nil, {"name"}}, "name"},
+	{[]string{"mod:top", "triple"}, [][]string{nil, {"x", "y", "z"}}, "v"},
+	{[]string{"mod:top", "triple"}, [][]string{nil, {"x", "y", "z"}}, "x"},
+	{[]string{"mod:top", "triple"}, [][]string{nil, {"x", "y", "z"}}, "y"},
+	{[]string{"mod:top", "triple"}, [][]string{nil, {"x", "y", "z"}}, "z"},
+	{[]string{"mod:top", "triple", "inner"}, [][]string{nil, {"x", "y", "z"}, {"a", "b"}}, "w"},
+	{[]string{"mod:top", "triple", "inner"}, [][]string{nil, {"x", "y", "z"}, {"a", "b"}}, "b"},
 	{[]string{"oc-if:interfaces", "interface", "config"}, [][]string{nil, {"name"}, nil}, "mtu"},
 }
 
@@ -505,6 +586,7 @@ func encPaths(ps [][]*gnmi.PathElem) string {
 var e2eCount int
 
 func obsE2E(e *env.Env, r *rand.Rand, id string, kind string) {
+	defer unexpected(id, "path.e2e", kind)
 	e2eCount++
 	target := fmt.Sprintf("e%d", e2eCount)
 	e.Topo.AddTarget(target, modelName, modelVersion, true, false)
@@ -573,10 +655,7 @@ func obsE2E(e *env.Env, r *rand.Rand, id string, kind string) {
 		rel := elems
 		if prefix != nil {
 			// every path of the request lives under the prefix
-			if len(elems) < len(prefix) || utils.StrPathElem(elems[:len(prefix)]) != utils.StrPathElem(prefix) {
-				if i == 0 {
-					panic("prefix")
-				}
+			if len(elems) < len(prefix) || encElems(elems[:len(prefix)]) != encElems(prefix) {
 				continue
 			}
 			rel = elems[len(prefix):]
@@ -584,7 +663,7 @@ func obsE2E(e *env.Env, r *rand.Rand, id string, kind string) {
 				continue
 			}
 		}
-		txt := utils.StrPathElem(full)
+		txt := encElems(full) // the harness' own canonical form: bookkeeping must not depend on the code under test
 		if seen[txt] {
 			continue
 		}
@@ -592,8 +671,7 @@ func obsE2E(e *env.Env, r *rand.Rand, id string, kind string) {
 		// depends on the order in which the change is merged); keep the requests free of such overlaps
 		overlap := false
 		for _, d := range dels {
-			dt := utils.StrPathElem(d)
-			if txt == dt || utils.IsPathBelow(txt, dt) {
+			if len(full) >= len(d) && encElems(full[:len(d)]) == encElems(d) {
 				overlap = true
 			}
 		}
@@ -615,6 +693,9 @@ func obsE2E(e *env.Env, r *rand.Rand, id string, kind string) {
 			Val: &gnmi.TypedValue{Value: &gnmi.TypedValue_StringVal{StringVal: val}}})
 	}
 	req.Prefix = &gnmi.Path{Target: target, Elem: prefix}
+	for n, cp := range append(append([][]*gnmi.PathElem{}, client...), dels...) {
+		obsDet(fmt.Sprintf("%s.p%d", id, n), cp)
+	}
 
 	ctx, cancel := context.WithTimeout(context.Background(), 20*time.Second)
 	defer cancel()
@@ -760,6 +841,7 @@ func main() {
 	defer e.StopControllers()
 
 	allObs := func(id string, elems []*gnmi.PathElem) {
+		obsDet(id, elems)
 		obsStr(id, elems, nil)
 		obsRT(id, elems)
 		text := utils.StrPathElem(elems)
